@@ -661,6 +661,9 @@ class Sym:
             return []
         if len(labels) == 1:
             return [("is", v, labels[0], ty)]
+        if len(labels) > 1:
+            # several switch values share the target (an or-pattern)
+            return [("isin", v, tuple(labels), ty)]
         return []
 
     def guards(self, b):
